@@ -388,6 +388,10 @@ Example C15_nonvacuous_range_with_partition_constraints : mgs_domain_parts ex_pa
   cut_witness (mg_numbers ex_parts_inst) (parts_of ex_parts_inst) (mg_total ex_parts_inst) = [1 - 0; 1 - 1; (0 + 2) - 1; (0 + 2 + 2) - (0 + 2); 6 - (0 + 2 + 2)] /\
   exists a, sat a (encode_mgs ex_parts_inst 5).
 Proof. exact ex_parts_domain. Qed.
+(* the bound len(numbers) + 1 + extra_cuts of C15_range_suffices is tight: here it is 2, {2,4} works, no single element does *)
+Example C15_range_bound_is_tight : (Z.of_nat (length (mg_numbers ex_tight_inst)) + 1 + extra_cuts (mg_parts ex_tight_inst) = 2)%Z /\
+  genset_for ex_tight_inst [2; 4] /\ forall g, length g = 1%nat -> ~ genset_for ex_tight_inst g.
+Proof. exact ex_tight. Qed.
 (* a satisfiable MinSetCover model *)
 Example C15_nonvacuous_setcover : exists m, encode_msc {| sc_universe := [1; 2; 3]%N; sc_subsets := [[1; 2]; [2; 3]; [3]]%N; sc_weights := Some [1; 1; 1] |} = Some m /\
   sat (fun v => match vidx v with [i] => if (i =? 2)%N then 0 else 1 | _ => 0 end) m.
